@@ -492,12 +492,17 @@ class Gen:
             if r.random() < 0.5:
                 py("args", "dummyargs", "x=", "")
         elif keyword == "namespace":
-            selfclose = True
             plain("name", "ns%d" % uid)
-            if r.random() < 0.5:
-                py("file", "attrexpr", "/ns${(", ")}.html")
+            if r.random() < 0.45:
+                body = "namespace"          # a namespace with defs of its own (multi-line body)
+                if r.random() < 0.3:
+                    plain("file", "/ns%d.html" % uid)
             else:
-                plain("file", "/ns%d.html" % uid)
+                selfclose = True
+                if r.random() < 0.5:
+                    py("file", "attrexpr", "/ns${(", ")}.html")
+                else:
+                    plain("file", "/ns%d.html" % uid)
         elif keyword == "inherit":
             selfclose = True
             if r.random() < 0.5:
@@ -565,6 +570,20 @@ class Gen:
             self.tagstack.append(keyword)
             if body == "text":
                 self.emit(r.choice(["raw ${not <%an> expression", "plain" + self.nl + "% not a line" + self.nl, "x"]))
+            elif body == "namespace":
+                save = self.ctlstack
+                self.ctlstack = []
+                self.emit(self.nl)
+                for _ in range(r.randint(1, 3)):
+                    self.gap()
+                    if r.random() < 0.5:
+                        self.emit(r.choice(["ignored text", "  more ignored text"]) + self.nl)
+                        self.gap()
+                    self.emit(self.indent())
+                    self.tag("def", depth + 1)
+                    self.newline_if_needed()
+                self.gap()
+                self.ctlstack = save
             else:
                 save = self.ctlstack
                 self.ctlstack = []          # the lexer's control stack is not tied to tags, but generated bodies are closed
@@ -643,6 +662,16 @@ def _truth(src, off):
     return {"line": line_of(src, off), "col": col_of(src, off), "off": off}
 
 
+# every structural fault class `structural_faults` can plant (the raise sites of mako map onto these: see
+# `siteClassTable` in lean/MakoModel/ErrPos/Model.lean and the `raise-site` stream of harness/props/C11.py)
+STRUCTURAL_CLASSES = (
+    "unterminated-expr", "unterminated-filter", "unterminated-block", "unknown-tag", "invalid-tag-name",
+    "illegal-attribute", "missing-attribute", "namespace-needs-name", "namespace-file-and-module", "missing-parenthesis",
+    "block-signature", "attribute-no-expression", "anon-block-args", "closing-mismatch", "unclosed-tag",
+    "unclosed-text-tag", "duplicate-block", "closing-without-opening", "no-starting-keyword", "keyword-mismatch",
+    "illegal-ternary", "invalid-control-line", "fragment-not-partial", "unsupported-keyword", "anon-block-in-namespace",
+    "import-star", "named-block-in-def", "named-block-in-call", "unterminated-control")
+
 PY_LABELS = ("expr", "filter", "block", "ctl", "sigdef", "sigargs", "attrexpr", "callexpr", "dummyargs", "arglist")
 
 
@@ -713,6 +742,10 @@ def structural_faults(base, rng):
         if req and req in t["attrs"]:
             a = t["attrs"][req]
             add("missing-attribute", _rep(src, a["attr_start"], a["attr_end"], ""), s0, tag=kw)
+        if kw == "namespace" and "file" in t["attrs"]:
+            last = max(t["attrs"].values(), key=lambda a: a["attr_end"])
+            add("namespace-file-and-module", _ins(src, last["attr_end"], rng.choice([" ", nl + "  "]) + "module='os.path'"),
+                s0, tag=kw)
         if kw == "namespace" and "name" in t["attrs"]:
             a = t["attrs"]["name"]
             add("namespace-needs-name", _rep(src, a["attr_start"], a["attr_end"], ""), s0, tag=kw)
@@ -770,6 +803,12 @@ def structural_faults(base, rng):
         add("invalid-control-line", _ins(src, o, ind + "% (a):" + nl), o)
         add("fragment-not-partial", _ins(src, o, ind + "% v7 = 1" + nl), o)
         add("unsupported-keyword", _ins(src, o, ind + "% until a:" + nl), o)
+        if g["tags"] and g["tags"][-1] == "namespace":
+            ins = ind + rng.choice(["<%block>anon</%block>", "<%block filter='h'>" + nl + "anon" + nl + "</%block>"]) + nl
+            add("anon-block-in-namespace", _ins(src, o, ins), o + len(ind))
+        blk = rng.choice(["<% from os import * %>", "<%" + nl + "    v0 = 1" + nl + "    from os.path import *" + nl + "%>",
+                          "<%! from os import * %>"])
+        add("import-star", _ins(src, o, ind + blk + nl), o + len(ind))
         if g["tags"] and g["tags"][-1] == "def":
             ins = ind + "<%block name='inner_blk'>z</%block>" + nl
             add("named-block-in-def", _ins(src, o, ins), o + len(ind))
@@ -793,8 +832,8 @@ def module_level_faults(base, rng):
     out = []
     src, nl = base.src, base.nl
     for g in base.gaps:
-        if g["tags"] and g["tags"][-1] == "text":
-            continue
+        if g["tags"] and (g["tags"][-1] == "text" or "namespace" in g["tags"]):
+            continue            # (what is written inside <%namespace> other than the defs' render code is not compiled)
         o = g["off"]
         ind = rng.choice(["", "  "])
         in_loop = any(k in ("for", "while") for k in g["ctls"])
